@@ -3,6 +3,7 @@ import Heathcliff.Proofs.C09E
 import Heathcliff.Proofs.C09F
 import Heathcliff.Proofs.C09G
 import Heathcliff.Proofs.GenNtt
+import Heathcliff.Proofs.GenDwt2
 
 /- Property theorems only (statements verbatim; proofs are the helper lemmas of Heathcliff/Proofs). -/
 namespace HC.C09
@@ -209,6 +210,119 @@ theorem gen_new_guard_eq (m : Modulus) (hm : m.value < 2^63) (a : Nat) :
 
 theorem gen_is_primitive_root_eq (root degree : Nat) (m : Modulus) (hm : 1 ≤ m.value) :
     GenN.is_primitive_root root degree m = isPrimitiveRoot root degree m := HC.gx_is_primitive_root_eq root degree m hm
+
+/-! ### translator tie, phase 4e: the butterfly NETWORK itself.  `DWTHandler::transform_to_rev` / `transform_from_rev`
+     (src/util/dwthandler.rs; generic over `trait Arithmetic`, closures mutating the captured `offset`, iterator chains over sub-slices)
+     and the wrappers of src/util/ntt.rs are regenerated from the source into Gen/DwtFns.lean (`HC.GenD`) and proved EQUAL to the hand
+     model (`runFwdA` / `runInvA`, `nttLazy` / `ntt` / `inttLazy` / `intt`) - Proofs/GenDwt.lean, Proofs/GenDwt2.lean.
+     `RealFwd A' A P Q`: the (possibly panicking) generated operations `A'` return the values of the total arithmetic `A` on every
+     butterfly whose inputs satisfy `P` and whose root satisfies `Q`.  Hypotheses forced by the proof: `log_n < 64` (`1 << log_n`
+     traps at 64), input length `2^log_n`, the table has at least `2^log_n` entries, and the range invariant `P` on every layer. -/
+
+/-- GENERATED = MODEL (forward), any realised arithmetic -/
+theorem gen_transform_to_rev_eq {α ρ σ : Type} {A' : GenD.Arithmetic α ρ σ} {A : Arith α ρ} {P : α → Prop} {Q : ρ → Prop} [Inhabited α]
+    (h : RealFwd A' A P Q) (k : Nat) (hk : k < 64) (vals : List α) (hv : vals.length = 2^k)
+    (roots : List ρ) (rf : Nat → ρ) (hrf : ∀ j, j < 2^k → roots[j]? = some (rf j)) (hQ : ∀ j, 0 < j → j < 2^k → Q (rf j))
+    (hP : ∀ l, l < k → ∀ p, p < 2^k → P (arrFn (runFwdA A k rf vals.toArray l) p))
+    (sc : Option σ) (ms : α → σ → α)
+    (hs : ∀ s, sc = some s → ∀ p, p < 2^k → A'.mul_scalar (arrFn (runFwdA A k rf vals.toArray k) p) s
+            = .ok (ms (arrFn (runFwdA A k rf vals.toArray k) p) s)) :
+    GenD.transform_to_rev A' vals k roots sc = .ok (gd_scaled ms sc (runFwdA A k rf vals.toArray k).toList) :=
+  HC.gd_transform_to_rev_eq h k hk vals hv roots rf hrf hQ hP sc ms hs
+
+/-- GENERATED = MODEL (inverse), any realised arithmetic -/
+theorem gen_transform_from_rev_eq {α ρ σ : Type} {A' : GenD.Arithmetic α ρ σ} {A : Arith α ρ} {P : α → Prop} {Q : ρ → Prop} [Inhabited α]
+    (h : RealInv A' A P Q) (k : Nat) (hk : k < 64) (vals : List α) (hv : vals.length = 2^k)
+    (roots : List ρ) (rf : Nat → ρ) (hrf : ∀ j, j < 2^k → roots[j]? = some (rf j)) (hQ : ∀ j, 0 < j → j < 2^k → Q (rf j))
+    (hP : ∀ l, l < k → ∀ p, p < 2^k → P (arrFn (runInvA A k rf vals.toArray l) p))
+    (sc : Option σ) (ms : α → σ → α)
+    (hs : ∀ s, sc = some s → ∀ p, p < 2^k → A'.mul_scalar (arrFn (runInvA A k rf vals.toArray k) p) s
+            = .ok (ms (arrFn (runInvA A k rf vals.toArray k) p) s)) :
+    GenD.transform_from_rev A' vals k roots sc = .ok (gd_scaled ms sc (runInvA A k rf vals.toArray k).toList) :=
+  HC.gd_transform_from_rev_eq h k hk vals hv roots rf hrf hQ hP sc ms hs
+
+/-- for ANY arithmetic structure with total operations: no hypothesis beyond the shapes -/
+theorem gen_transform_to_rev_total {α ρ σ : Type} [Inhabited α] (A : Arith α ρ) (ms : α → σ → α) (k : Nat) (hk : k < 64) (vals : List α)
+    (hv : vals.length = 2^k) (roots : List ρ) (rf : Nat → ρ) (hrf : ∀ j, j < 2^k → roots[j]? = some (rf j)) (sc : Option σ) :
+    GenD.transform_to_rev (gd_total A ms) vals k roots sc = .ok (gd_scaled ms sc (runFwdA A k rf vals.toArray k).toList) :=
+  HC.gd_transform_to_rev_total A ms k hk vals hv roots rf hrf sc
+
+theorem gen_transform_from_rev_total {α ρ σ : Type} [Inhabited α] (A : Arith α ρ) (ms : α → σ → α) (k : Nat) (hk : k < 64) (vals : List α)
+    (hv : vals.length = 2^k) (roots : List ρ) (rf : Nat → ρ) (hrf : ∀ j, j < 2^k → roots[j]? = some (rf j)) (sc : Option σ) :
+    GenD.transform_from_rev (gd_total A ms) vals k roots sc = .ok (gd_scaled ms sc (runInvA A k rf vals.toArray k).toList) :=
+  HC.gd_transform_from_rev_total A ms k hk vals hv roots rf hrf sc
+
+/-- the lazy modular instance realises `modArithLazy` on `[0, 4q)` (forward) and `[0, 2q)` (inverse): none of the checked `+` / `-` traps -/
+theorem gen_lazy_fwd_realised (hm : m.WF) (s : GenN.ModArithLazy) (hs1 : s.modulus = m) (hs2 : s.two_times_modulus = 2 * m.value) :
+    RealFwd (GenD.arith_ModArithLazy s) (modArithLazy m) (fun x => x < 4 * m.value) (WFOp m) := HC.gd_lazy_fwd hm s hs1 hs2
+
+theorem gen_lazy_inv_realised (hm : m.WF) (s : GenN.ModArithLazy) (hs1 : s.modulus = m) (hs2 : s.two_times_modulus = 2 * m.value) :
+    RealInv (GenD.arith_ModArithLazy s) (modArithLazy m) (fun x => x < 2 * m.value) (WFOp m) := HC.gd_lazy_inv hm s hs1 hs2
+
+/-- GENERATED = MODEL for the lazy modular instance (partial, checked operations), forward: inputs `< 4q` (the invariant of `fwd_lazy_sim`) -/
+theorem gen_lazy_transform_to_rev (hm : m.WF) (s : GenN.ModArithLazy) (hs1 : s.modulus = m) (hs2 : s.two_times_modulus = 2 * m.value)
+    (k : Nat) (hk : k < 64) (vals : List Nat) (hv : vals.length = 2^k) (ha : ∀ x ∈ vals, x < 4 * m.value)
+    (roots : List MulOperand) (rf : Nat → MulOperand) (hrf : ∀ j, j < 2^k → roots[j]? = some (rf j))
+    (hQ : ∀ j, 0 < j → j < 2^k → WFOp m (rf j)) :
+    GenD.transform_to_rev (GenD.arith_ModArithLazy s) vals k roots none = .ok (runFwdA (modArithLazy m) k rf vals.toArray k).toList :=
+  HC.gd_lazy_transform_to_rev hm s hs1 hs2 k hk vals hv ha roots rf hrf hQ
+
+/-- … inverse: inputs `< 2q` (the invariant of `inv_lazy_sim`), scalar pass included -/
+theorem gen_lazy_transform_from_rev (hm : m.WF) (s : GenN.ModArithLazy) (hs1 : s.modulus = m) (hs2 : s.two_times_modulus = 2 * m.value)
+    (k : Nat) (hk : k < 64) (vals : List Nat) (hv : vals.length = 2^k) (ha : ∀ x ∈ vals, x < 2 * m.value)
+    (roots : List MulOperand) (rf : Nat → MulOperand) (hrf : ∀ j, j < 2^k → roots[j]? = some (rf j))
+    (hQ : ∀ j, 0 < j → j < 2^k → WFOp m (rf j)) (sc : MulOperand) :
+    GenD.transform_from_rev (GenD.arith_ModArithLazy s) vals k roots (some sc)
+      = .ok ((runInvA (modArithLazy m) k rf vals.toArray k).toList.map (fun x => (modArithLazy m).mulRoot x sc)) :=
+  HC.gd_lazy_transform_from_rev hm s hs1 hs2 k hk vals hv ha roots rf hrf hQ sc
+
+/-- the wrappers of src/util/ntt.rs (handler call + final correction loop) on the fields of a well-formed table = the model functions -/
+theorem gen_ntt_lazy_eq (hw : t.WF) (a : List Nat) (hs : a.length = 2^t.k) (ha : ∀ x ∈ a, x < 4 * t.modulus.value) :
+    GenD.ntt_negacyclic_harvey_lazy (gd_view t) a = .ok (nttLazy t a.toArray).toList := HC.gd_ntt_lazy_eq hw a hs ha
+theorem gen_ntt_eq (hw : t.WF) (a : List Nat) (hs : a.length = 2^t.k) (ha : ∀ x ∈ a, x < 4 * t.modulus.value) :
+    GenD.ntt_negacyclic_harvey (gd_view t) a = .ok (ntt t a.toArray).toList := HC.gd_ntt_eq hw a hs ha
+theorem gen_intt_lazy_eq (hw : t.WF) (a : List Nat) (hs : a.length = 2^t.k) (ha : ∀ x ∈ a, x < 2 * t.modulus.value) :
+    GenD.inverse_ntt_negacyclic_harvey_lazy (gd_view t) a = .ok (inttLazy t a.toArray).toList := HC.gd_intt_lazy_eq hw a hs ha
+theorem gen_intt_eq (hw : t.WF) (a : List Nat) (hs : a.length = 2^t.k) (ha : ∀ x ∈ a, x < 2 * t.modulus.value) :
+    GenD.inverse_ntt_negacyclic_harvey (gd_view t) a = .ok (intt t a.toArray).toList := HC.gd_intt_eq hw a hs ha
+
+/-- FROM SOURCE TO MATHEMATICS, one statement.  For tables built by `NTTTables.new` (any WF modulus, any degree 2^k, k ≤ 60): ψ = `t.root`
+    is a primitive 2N-th root of unity mod q (ψ^N = -1), and the function GENERATED from the Rust source of
+    `NTTTables::ntt_negacyclic_harvey` (butterfly network `DWTHandler::transform_to_rev` run with `ModArithLazy`, then the correction loop)
+    maps the canonical coefficient vector `a` of a polynomial to its evaluations at ψ^(2·brev(i)+1), and the function generated from
+    `inverse_ntt_negacyclic_harvey` maps these evaluations back to `a`. -/
+theorem gen_ntt_source_to_math {k : Nat} {m : Modulus} {pr : Bool} {root0 : Nat} {t : NTTTables}
+    (hm : m.WF) (hk : k ≤ 60) (hr0 : root0 < 2^64) (h : NTTTables.new k m pr root0 = .ok t)
+    (a : List Nat) (hs : a.length = 2^k) (ha : ∀ x ∈ a, x < m.value) :
+    t.k = k ∧ t.modulus = m ∧ t.root ^ (2^k) % m.value = m.value - 1 ∧
+    ∃ out, GenD.ntt_negacyclic_harvey (gd_view t) a = .ok out ∧ out.length = 2^k ∧
+      (∀ i, i < 2^k → out[i]? = some ((∑ j ∈ range (2^k), a.toArray.getD j 0 * (t.root ^ (2 * brev k i + 1)) ^ j) % m.value)) ∧
+      GenD.inverse_ntt_negacyclic_harvey (gd_view t) out = .ok a := by
+  obtain ⟨hw, rfl, rfl, _⟩ := HC.NTTTables.new_wf_u64 hm hk hr0 h
+  exact ⟨rfl, rfl, hw.root_pow, HC.gd_source_roundtrip hw a hs ha⟩
+
+/-- the inverse statement: the generated inverse transform maps canonical evaluations `b` to the canonical coefficient vector whose
+    evaluations at ψ^(2·brev(i)+1) they are (and the generated forward transform maps it back to `b`) -/
+theorem gen_intt_source_to_math {k : Nat} {m : Modulus} {pr : Bool} {root0 : Nat} {t : NTTTables}
+    (hm : m.WF) (hk : k ≤ 60) (hr0 : root0 < 2^64) (h : NTTTables.new k m pr root0 = .ok t)
+    (b : List Nat) (hs : b.length = 2^k) (hb : ∀ x ∈ b, x < m.value) :
+    ∃ a, GenD.inverse_ntt_negacyclic_harvey (gd_view t) b = .ok a ∧ a.length = 2^k ∧ (∀ x ∈ a, x < m.value) ∧
+      GenD.ntt_negacyclic_harvey (gd_view t) a = .ok b ∧
+      ∀ i, i < 2^k → b[i]? = some ((∑ j ∈ range (2^k), a.toArray.getD j 0 * (t.root ^ (2 * brev k i + 1)) ^ j) % m.value) := by
+  obtain ⟨hw, rfl, rfl, _⟩ := HC.NTTTables.new_wf_u64 hm hk hr0 h
+  exact HC.gd_source_inverse hw b hs hb
+
+/-- the same two statements for any well-formed table -/
+theorem gen_ntt_source_eval (hw : t.WF) (a : List Nat) (hs : a.length = 2^t.k) (ha : ∀ x ∈ a, x < 4 * t.modulus.value) :
+    ∃ out, GenD.ntt_negacyclic_harvey (gd_view t) a = .ok out ∧ out.length = 2^t.k ∧
+      ∀ i, i < 2^t.k → out[i]? = some (evalSpec t a.toArray i) := HC.gd_ntt_source_eval hw a hs ha
+
+/-- non-vacuity of the generic bundle and a run of the generated code inside the kernel: the total arithmetic of `Nat`
+    (guard = id, root multiplication = `*`), N = 4, table [1, 2, 3, 5]: layer 0 uses root 2 on the halves, layer 1 roots 3 and 5 -/
+example : RealFwd (gd_total (⟨(· + ·), (· - ·), (· * ·), id⟩ : Arith Nat Nat) (fun a (s : Nat) => a * s))
+    ⟨(· + ·), (· - ·), (· * ·), id⟩ (fun _ => True) (fun _ => True) := HC.gd_total_fwd _ _
+example : GenD.transform_to_rev (gd_total (⟨(· + ·), (· - ·), (· * ·), id⟩ : Arith Nat Nat) (fun a (s : Nat) => a * s))
+    [100, 10, 1, 0] 2 [1, 2, 3, 5] (some 2) = .ok [264, 144, 296, 96] := by decide
 
 /-- non-vacuity: q = 17, N = 4 (2N = 8 divides 16): 2 is a primitive 8th root (2^4 = 16 = -1) -/
 example : IsPrim 4 17 2 := by unfold IsPrim; decide
